@@ -80,15 +80,18 @@ impl Cfg {
     }
 }
 
+/// one plain run (no second passes): what the heap / work measurements of `bombs` time
+pub fn run_single_plain(text: &str, ty: &Ty, cfg: &Cfg) -> String {
+    let r = catch(|| serde_saphyr::with_deserializer_from_str_with_options(text, cfg.options(), |de| Seed(ty).deserialize(de)));
+    match r {
+        Err(msg) => format!("panic {}", hex(&msg)),
+        Ok(Ok(v)) => format!("ok {}", v.tokens()),
+        Ok(Err(e)) => err_tok(&e),
+    }
+}
+
 pub fn run_single(text: &str, ty: &Ty, cfg: &Cfg) -> String {
-    let once = || {
-        let r = catch(|| serde_saphyr::with_deserializer_from_str_with_options(text, cfg.options(), |de| Seed(ty).deserialize(de)));
-        match r {
-            Err(msg) => format!("panic {}", hex(&msg)),
-            Ok(Ok(v)) => format!("ok {}", v.tokens()),
-            Ok(Err(e)) => err_tok(&e),
-        }
-    };
+    let once = || run_single_plain(text, ty, cfg);
     let ans = once();
     // a derived tuple struct (`deserialize_tuple_struct`) is the same fixed-size position as a tuple: same answer demanded
     if ty.tokens().contains("tup ") {
@@ -739,14 +742,26 @@ fn generate(a: &Args, name: &str, family: u8) -> i32 {
     // also when the repeated key is written as an alias of the first one
     if family == 2 {
         let mut fails: Vec<String> = Vec::new();
-        for (text, line, col) in [("&k a: 1\n*k : 2\n", 2u64, 1u64), ("a: 1\nb: 2\na: 3\n", 3, 1), ("{&k a: 1, *k : 2}\n", 1, 12)] {
-            let r = serde_saphyr::from_str::<serde_json::Value>(text);
+        use std::collections::BTreeMap;
+        // target: 0 = untyped value, 1 = map keyed by sequences, 2 = map keyed by mappings
+        for (text, line, col, target) in [("&k a: 1\n*k : 2\n", 2u64, 1u64, 0u8), ("a: 1\nb: 2\na: 3\n", 3, 1, 0), ("{&k a: 1, *k : 2}\n", 1, 11, 0),
+            // composite alias key; the anchor in an EARLIER entry (as its key / as its value) with entries in between; the first
+            // occurrence written as an alias and the repeat written out; a nested mapping; a flow mapping inside a sequence
+            ("&k [1, 2]: x\n*k : z\n", 2, 1, 1), ("&k [1, 2]: x\n[3]: y\n*k : z\n", 3, 1, 1), ("&k {p: 1}: x\n{q: 2}: y\n*k : z\n", 3, 1, 2),
+            ("[1, 2]: x\n[3]: y\n[1, 2]: z\n", 3, 1, 1), ("&k a: 1\nb: 2\n*k : 3\n", 3, 1, 0),
+            ("x: &k a\nb: 2\n*k : 3\na: 4\n", 4, 1, 0), ("x: &k a\na: 1\nb: 2\n*k : 3\n", 4, 1, 0), ("t:\n  &k a: 1\n  *k : 2\n", 3, 3, 0),
+            ("- &k a\n- {a: 1, b: 2, *k : 3}\n", 2, 16, 0)] {
+            let r: Result<(), serde_saphyr::Error> = match target {
+                0 => serde_saphyr::from_str::<serde_json::Value>(text).map(|_| ()),
+                1 => serde_saphyr::from_str::<BTreeMap<Vec<i64>, String>>(text).map(|_| ()),
+                _ => serde_saphyr::from_str::<BTreeMap<BTreeMap<String, i64>, String>>(text).map(|_| ()),
+            };
             sink.count("dup_oracle.cases");
             match r {
                 Err(e) if crate::errs::kind(&e) == "DuplicateMappingKey" => {
                     let l = e.location().map(|l| (l.line() as u64, l.column() as u64));
                     if l != Some((line, col)) {
-                        let id = if text.contains('*') { "C04-duplicate-alias-key-located-at-anchor" } else { "C04-duplicate-key-location" };
+                        let id = "C04-duplicate-key-location";
                         fails.push(serde_json::json!({"id": id, "what": "duplicate-key error is not located at the repeated key", "input": text, "observed": format!("{l:?}"), "expected": format!("({line}, {col})")}).to_string());
                     }
                 }
